@@ -53,6 +53,12 @@ class CrashGrid(SparseGrid):
         event('td.impute', (tuple(alpha), tuple(beta)))
         return super().impute_missing_data(alpha, beta)
 
+    @staticmethod
+    def collocation_1d(N, z_bds, z_pts=None, wt_fcn=None, method='leja', opt_args=None):
+        # an interruption while the design points of a refinement are being generated (inside SparseGrid.refine)
+        event('td.colloc', int(N))
+        return SparseGrid.collocation_1d(N, z_bds, z_pts=z_pts, wt_fcn=wt_fcn, method=method, opt_args=opt_args)
+
 
 @dataclass
 class CrashLagrange(Lagrange):
@@ -72,7 +78,8 @@ def cm_a(inputs, model_fidelity=None):
 def cm_b(inputs):
     event('model', 'b')
     ya, x1 = float(np.atleast_1d(inputs['ya'])[0]), float(np.atleast_1d(inputs['x1'])[0])
-    return {'yb': np.sin(ya) + 0.5 * x1, 'model_cost': 2e-3}
+    # the reported cost varies from evaluation to evaluation (as a measured run time does)
+    return {'yb': np.sin(ya) + 0.5 * x1, 'model_cost': 2e-3 * (1.0 + 0.3 * abs(x1) + 0.1 * ya)}
 
 
 def cm_c(inputs):
